@@ -47,13 +47,21 @@ def _c19():
 PROOFS += output_proofs.select(['add_text_ascii', 'output_to_column'])   # K4: columns never move left, only blanks/tabs are written while advancing
 PROOFS += [outtext_proofs.iteration_proof()]   # K5: every chunk's text is written once, at or right of where the previous text ended
 PROOFS += nlguard_proofs.all_proofs()   # K6: a newline is deleted / crossed only if SafeToDeleteNl()
+sys.path.insert(0, os.path.join(os.path.dirname(os.path.abspath(__file__)), '..', '..', 'tools'))
+from prover import Proof  # noqa: E402
+PROOFS.append(Proof('collect_operator_type_step', impl='contracts/C02/optype.impl.cpp', spec='contracts/C02/optype.spec.c', harness='h_collect_operator_type_step', plain=True, no_contract=True, canaries=2, rules={},
+                    nondet_static='.*(g_space_needed|g_last_is_word|g_first_is_word).*', unwind=6, expect=['postcondition: operator type'], drop_flags=['--conversion-check'],
+                    functions=['tokenize_cleanup.cpp:tokenize_cleanup (fragment: one iteration of the operator-type collection)'],
+                    assumed=['space_needed: any number of blanks up to 4 (no PCF_FORCE_SPACE flag exists when tokenize_cleanup runs)', 'CharTable::IsKw1 / IsKw2: one arbitrary answer each'],
+                    note='the loop that appends the blanks is unwound 6 (complete for up to 4 blanks) with unwinding assertions',
+                    mutants=[('word_guard_dropped', r'if \(  num_sp == 0\n', 'if (  false\n', 'postcondition')]))   # K7
 PROOFS += _c19()   # K3: the fusion guard (PCF_FORCE_SPACE) overrides Remove
 EXPLANATION = ('Kernel of C02. (1) ChunkListManager: every primitive preserves the doubly-linked-list representation invariant and changes the sequence exactly as '
                'specified (Remove: sequence minus obj; AddAfter/AddBefore/AddTail/AddHead: obj inserted at the stated place; Swap: the two exchanged), stated for an '
                'arbitrary observer node. Small-model argument: the primitives are loop free and dereference only their arguments and those arguments\' direct '
                'neighbours (at most 6 nodes); with one arbitrary observer the restriction of any heap to the touched nodes embeds into the pool of 8 nodes with '
                'arbitrary links used here, so the pool is exhaustive, not a bound. (2) the tokenizer white-space primitives consume only white space.')
-K = ['K1 ChunkListManager::{Remove, AddAfter, AddBefore, AddTail, AddHead, Swap}', 'K3 ensure_force_space / space_needed: a pair flagged PCF_FORCE_SPACE always gets at least one space', 'K3b space_text (core of one iteration): two chunks whose boundary characters are both keyword characters, or \'/\' followed by \'*\' or \'/\' (a comment opener), or whose concatenation lexes to a punctuator of another length (except > > closing template lists, and []), get PCF_FORCE_SPACE, and a forced space yields at least one column between them', 'K3c do_space: between a brace-less else/do and the word that starts its statement (an empty virtual brace stands between them, and the fusion guard only compares direct neighbours) the answer is never REMOVE', 'K2 parse_whitespace / parse_newline / parse_bs_newline / parse_off_newlines discard only white space',
+K = ['K7 tokenize_cleanup (operator-type collection, one iteration): two words merged into the text of a conversion operator\'s type keep at least one blank between them, whatever space_needed() answers', 'K1 ChunkListManager::{Remove, AddAfter, AddBefore, AddTail, AddHead, Swap}', 'K3 ensure_force_space / space_needed: a pair flagged PCF_FORCE_SPACE always gets at least one space', 'K3b space_text (core of one iteration): two chunks whose boundary characters are both keyword characters, or \'/\' followed by \'*\' or \'/\' (a comment opener), or whose concatenation lexes to a punctuator of another length (except > > closing template lists, and []), get PCF_FORCE_SPACE, and a forced space yields at least one column between them', 'K3c do_space: between a brace-less else/do and the word that starts its statement (an empty virtual brace stands between them, and the fusion guard only compares direct neighbours) the answer is never REMOVE', 'K2 parse_whitespace / parse_newline / parse_bs_newline / parse_off_newlines discard only white space',
      'K5 output_text (one iteration): a chunk with text is written exactly once by add_text(its own str) after output_to_column(its column); when not first on the line the column is first pushed right to cpd.column (reindent_line) so texts never overlap; chunks without text write nothing',
      'K6 newline deletion guard: Chunk::SafeToDeleteNl() is false after a // comment and across a preprocessor boundary; convert_brace() and the class/constructor-colon pass delete or cross a newline only under that guard',
      'K4 output_to_column: the column never moves left (exactly max(old, requested)) and only blanks/tabs are issued']
@@ -73,4 +81,4 @@ def static_facts(repo):
 
 sys.path.insert(0, os.path.join(os.path.dirname(os.path.abspath(__file__)), '..', '..', 'tools'))
 import replay_lib  # noqa: E402
-REPLAY = replay_lib.make_replay(replay_lib.scenario_comment_opener, replay_lib.scenario_gating_default, replay_lib.scenario_line_endings)
+REPLAY = replay_lib.make_replay(replay_lib.scenario_comment_opener, replay_lib.scenario_operator_type_words, replay_lib.scenario_gating_default, replay_lib.scenario_line_endings)
